@@ -401,6 +401,14 @@ def workload(tier, rng, shard, nshards, work):
     with contextlib.redirect_stdout(sink):
         _workload(tier, rng, shard, nshards)
 
+    # objects that carry a history (mutated in place, or produced by earlier operations): the monitors judge every call made on them
+    import contextlib as _cl
+    import io as _io
+    from workloads.histories import run_histories
+
+    with _cl.redirect_stdout(_io.StringIO()):
+        run_histories(rng, (400 if tier == "quick" else 12000) // nshards)
+
 
 def _workload(tier, rng, shard, nshards):
     # dyadic grid tiers x offsets on the grid x modes
